@@ -444,7 +444,9 @@ fn c06_scenarios(thorough: bool) -> Vec<Scenario> {
     }
     // the hashing queue shrunk to one / two slots (the code's 16 is a tuning constant): the hashing thread
     // is a full queue behind at every step, also when the stop signal arrives
-    for (cap, w, f) in [(1usize, 1usize, 2usize), (1, 1, 3), (2, 1, 3), (1, 2, 2)] {
+    // (two workers and two frames take 36 s at one slot: thorough tier)
+    let caps: &[(usize, usize, usize)] = if thorough { &[(1, 1, 2), (1, 1, 3), (2, 1, 3), (1, 2, 1), (1, 2, 2)] } else { &[(1, 1, 2), (1, 1, 3), (2, 1, 3), (1, 2, 1)] };
+    for &(cap, w, f) in caps {
         let mut sc = mk(&format!("cap{cap}_w{w}_f{f}_faultfree"), w, None, w, data(f), 0, false, 2);
         sc.process_cap = cap;
         v.push(sc);
